@@ -31,29 +31,32 @@ PROPERTY = "C06"
 RULE = ("pairwise covering array over {grid (square/non-square, even/odd), energy, potential kind (none, atoms, frozen "
         "phonons with/without ensemble mean, explicit atoms ensemble), aberration set (none, defocus, Cs, astigmatism, "
         "coma, mixed), CTF aperture (equal/smaller than the S-matrix cut-off, soft/hard), defocus series, scan kind "
-        "(grid with/without endpoint, line, custom incl. positions outside the cell, single position), detector set, "
+        "(grid with/without endpoint, line, custom inside the cell, custom incl. positions outside the cell = periodic "
+        "images, single position), detector set, "
         "down-sampling, entry point, chunking} x seeded continuous parameters (cut-off, aberration magnitudes, "
         "positions, atom positions); every case is run lazily AND eagerly; a second covering array over "
         "interpolation factors {2, 3, (1,2), (2,1), (2,3)}; dedicated cases for SMatrixArray.scan. "
         "non-trivial = the reference measurement is not identically zero; distinct = distinct case dicts")
 BOUNDS = {
     "gpts": "<= 32 x 32", "atoms": "<= 4", "slices": "<= 3", "configs": "<= 3", "ctf_members": "<= 3",
-    "scan_positions": "<= 9",
+    "scan_positions": "<= 9, custom positions in [-1.3, 2.3] x extent",
     "interpolation": [[2, 2], [3, 3], [1, 2], [2, 1], [2, 3]],
     "extra_random_cases": {"quick": 6, "thorough": 260},
     "interp_extra_random_cases": {"quick": 2, "thorough": 80},
 }
 EXHAUSTIVE = False
 ASSUMPTIONS = [
-    "float32 pipeline: arrays compared with max|a-b| <= 2e-4 * max|reference| (observed agreement ~1e-6)",
+    "float32 pipeline: arrays compared with max|a-b| <= 2e-4 * max|reference| (observed agreement ~1e-6); detector "
+    "signals (fractions of the unit beam intensity) use max(max|reference|, 1e-6) as scale",
     "lazy vs eager of the same S-matrix run compared with 2e-5 * max|reference|",
     "sum |ctf coefficient|^2 == 1 within 1e-4",
     "oracle: independent Probe runs (one per configuration / CTF member), NumPy stack/mean/fft-crop/tile/window",
     "ensemble axes order of the reduced result: (frozen phonons, ctf, scan..., base...) as asserted by abTEM's test_prism_scan",
     "exit waves are never averaged over frozen phonons (Probe.multislice and the lazy S-matrix keep the axis); other "
     "measurements are averaged iff ensemble_mean=True",
-    "interpolation: the crop corner may be any of the 3x3 integer corners around (position/sampling - window/2); "
-    "positions are defined modulo the window in vacuum",
+    "interpolation: any integer crop corner whose window centre lies within one pixel of the probe position is "
+    "accepted (covers round/floor/ceil conventions for even and odd windows); positions outside the cell denote their "
+    "periodic images",
     "down-sampled S-matrix: clause evaluated on the common frequencies / common detector pixels only; "
     "PixelatedDetector(max_angle='cutoff') returns a smaller angular range for a down-sampled S-matrix "
     "(adjusted_antialias_cutoff_gpts) — the shape difference is not counted as a violation",
@@ -155,7 +158,13 @@ def _scan(kind, r, extent):
         n = int(r.integers(1, 5))
         pos = [[u(-0.3, 1.3) * lx, u(-0.3, 1.3) * ly] for _ in range(n)]
         pos.append([0.0, 0.0])
+        # and one position more than a window beyond the cell (periodic image)
+        far = [u(1.0, 2.3) * lx, u(-1.3, 2.3) * ly] if r.uniform() < 0.5 else [u(-1.3, 0.0) * lx, u(1.0, 2.3) * ly]
+        pos.insert(int(r.integers(0, len(pos) + 1)), far)
         return {"type": "custom", "positions": pos}
+    if kind == "custom_inside":
+        n = int(r.integers(2, 6))
+        return {"type": "custom", "positions": [[u(0, 1) * lx, u(0, 1) * ly] for _ in range(n)]}
     if kind == "single":
         return {"type": "single", "position": [u(0, 1) * lx, u(0, 1) * ly]}
     raise ValueError(kind)
@@ -167,8 +176,9 @@ def _fill(case, seed, idx):
     gpts, extent = case.pop("grid")
     case["gpts"], case["extent"] = list(gpts), list(extent)
     energy = case["energy"]
-    amax = _antialias_angle(gpts, extent, energy)
-    # at least a handful of beams, at most 0.7 x anti-aliasing angle
+    # the aperture (incl. its soft edge) must fit into the angular range kept by the S-matrix after down-sampling
+    amax = _retained_angle(dict(case, gpts=gpts, extent=extent))
+    # at least a handful of beams, at most 0.7 x the retained (anti-aliasing) angle
     kmin = 1.6 / min(extent) * max(case["interpolation"])
     lo = min(max(0.3 * amax, kmin * wavelength(energy) * 1e3), 0.6 * amax)
     case["cutoff"] = float(r.uniform(lo, 0.7 * amax))
@@ -208,7 +218,8 @@ def cases(tier, seed):
         yield _fill(c, seed, i)
 
     ibase = {"grid": GRIDS_INTERP, "energy": ENERGIES, "potential": ["none", "atoms", "fp_nomean"],
-             "aberration": ABERRATIONS, "aperture": APERTURES, "scan": ["grid", "custom", "line", "single"],
+             "aberration": ABERRATIONS, "aperture": APERTURES,
+             "scan": ["grid", "custom", "custom_inside", "line", "single"],
              "interpolation": [list(x) for x in BOUNDS["interpolation"]], "downsample": [False, "cutoff"],
              "entry": ["reduce", "build.reduce"], "chunking": ["auto", "mbm", "mbr"]}
     rows = covering(ibase, seed=seed + 1, extra_random=BOUNDS["interp_extra_random_cases"][tier])
@@ -314,9 +325,9 @@ def _retained_angle(case):
     a = _antialias_angle(case["gpts"], case["extent"], case["energy"])
     ds = case["downsample"]
     if ds == "valid":
-        a = a / math.sqrt(2.0)
+        a = 0.85 * a / math.sqrt(2.0)      # inscribed rectangle, minus the rounding of the down-sampled grid
     elif ds == "angle":
-        a = min(a, _downsample_angle(case))
+        a = 0.9 * min(a, _downsample_angle(case))
     return a
 
 
@@ -486,13 +497,13 @@ def _run_oracle(case):
 # comparisons
 # ------------------------------------------------------------------------------------------------------------------
 
-def _relerr(a, b):
+def _relerr(a, b, floor=1e-30):
     import numpy as np
 
     scale = float(np.abs(b).max()) if b.size else 0.0
     if not (np.all(np.isfinite(a)) and np.all(np.isfinite(b))):
         return float("inf"), scale
-    return float(np.abs(a - b).max()) / max(scale, 1e-30), scale
+    return float(np.abs(a - b).max()) / max(scale, floor), scale
 
 
 def _squeeze_if_single(case, a):
@@ -525,7 +536,9 @@ def _compare(case, name, got, ref, ref_meas, tol):
 
     a = _squeeze_if_single(case, np.asarray(got.array))
     b = _squeeze_if_single(case, ref)
-    nt = bool(np.any(b != 0))
+    # detector signals are fractions of the unit beam intensity: a signal below 1e-6 is compared absolutely
+    floor = 1e-30 if name == "waves" else 1e-6
+    nt = bool(np.abs(b).max() > floor) if b.size else False
     if type(got).__name__ != type(ref_meas).__name__:
         return False, f"{name}: type {type(got).__name__} vs probe {type(ref_meas).__name__}", nt
     ds = case["downsample"] is not False
@@ -555,11 +568,11 @@ def _compare(case, name, got, ref, ref_meas, tol):
             sl_a.append(slice(lo - oa, hi - oa))
             sl_b.append(slice(lo - ob, hi - ob))
         a2, b2 = a[..., sl_a[0], sl_a[1]], b[..., sl_b[0], sl_b[1]]
-        err, scale = _relerr(a2, b2)
+        err, scale = _relerr(a2, b2, floor)
         return err <= tol, f"{name}[common pixels {a2.shape[-2:]}]: rel err {err:.3e} (scale {scale:.3e})", nt
     if a.shape != b.shape:
         return False, f"{name}: shape {a.shape} vs probe {b.shape}", nt
-    err, scale = _relerr(a, b)
+    err, scale = _relerr(a, b, floor)
     return err <= tol, f"{name}: rel err {err:.3e} (scale {scale:.3e}, shape {a.shape})", nt
 
 
@@ -627,7 +640,7 @@ def _run_match(case):
         elif a.shape != b.shape:
             parts.append((False, f"{name}: lazy shape {a.shape} vs eager shape {b.shape}", nt))
         else:
-            err, scale = _relerr(a, b)
+            err, scale = _relerr(a, b, 1e-30 if name == "waves" else 1e-6)
             parts.append((err <= RTOL_LAZY, f"{name}: lazy vs eager rel err {err:.3e} (scale {scale:.3e})", nt))
     ok, detail, nt = _aggregate(parts)
     out.append(Res("C06/reduce/lazy-equals-eager", ok, detail, nt))
@@ -702,21 +715,23 @@ def _run_interp(case):
                 if dgpts != tuple(gpts):
                     big = np.fft.ifft2(_fourier_crop(big, dgpts))
                 pix = np.array([p[0] / extent[0] * dgpts[0], p[1] / extent[1] * dgpts[1]])
-                c0 = np.floor(pix - np.array(win) / 2.0 + 0.5).astype(int)
+                # admissible corners: the window centre lies within one pixel of the probe position
+                cand = [range(int(math.ceil(pix[k] - win[k] / 2.0 - 1.0 - 1e-6)),
+                              int(math.floor(pix[k] - win[k] / 2.0 + 1.0 + 1e-6)) + 1) for k in (0, 1)]
                 best = None
-                for dx in (-1, 0, 1):
-                    for dy in (-1, 0, 1):
-                        ix = (c0[0] + dx + np.arange(win[0])) % dgpts[0]
-                        iy = (c0[1] + dy + np.arange(win[1])) % dgpts[1]
+                for cx in cand[0]:
+                    for cy in cand[1]:
+                        ix = (cx + np.arange(win[0])) % dgpts[0]
+                        iy = (cy + np.arange(win[1])) % dgpts[1]
                         refw = big[ix[:, None], iy[None, :]]
                         err, scale = _relerr(a[ic, ip], refw)
                         if best is None or err < best[0]:
-                            best = (err, scale, dx, dy)
+                            best = (err, scale, cx, cy)
                 nt = nt or best[1] > 0
                 if best[0] >= worst:
                     worst = best[0]
                     worst_detail = (f"{tag}: config {ic} position {p.tolist()} window {win}: best rel err {best[0]:.3e} "
-                                    f"at corner offset ({best[2]},{best[3]}) (scale {best[1]:.3e})")
+                                    f"at corner ({best[2]},{best[3]}), position = {pix.round(2).tolist()} px (scale {best[1]:.3e})")
         parts.append((worst <= RTOL, worst_detail, nt))
     ok, detail, nt = _aggregate(parts)
     out = [Res("C06/interpolation/reduced-probe-equals-cropped-window-probe", ok, detail, nt)]
